@@ -2,6 +2,7 @@ import SqlgrepModel.Codec
 import SqlgrepModel.Model.Print
 import SqlgrepModel.Model.Reader
 import SqlgrepModel.Lemmas.PrintGrammar
+import SqlgrepModel.Lemmas.PrintReal
 /- Driver handler for C17 cases:
 `print FMT FIRST ((SINGLE (xCOL…) ((v…)…))…) ((BITS xFIXED2 xJSON)…)` → the lines handed to `println`
 (`lines N xHEX…`), or `panic` when an index of `OutputPrinter::print` is out of range.
@@ -41,12 +42,14 @@ def mkOracle (tbl : List (Nat × Bytes × Bytes)) : RealOracle :=
     json := fun b => match tbl.find? (·.1 == b) with | some e => e.2.2 | none => [63] }
 
 /-- the hypotheses of `Props/C17Json.printed_json_lines_are_json` / `json_record_denotes_row`, evaluated:
-every column name and every TEXT payload is valid UTF-8 (`Reader.validUtf8`, which implies `IsUtf8`), and the
-text shipped for every finite REAL of the rows is a JSON number of RFC 8259 §6 (`RealTextsOk`) -/
+every column name and every TEXT payload is valid UTF-8 (`Reader.validUtf8`, which implies `IsUtf8`), the
+text shipped for every finite REAL of the rows is a JSON number of RFC 8259 §6 (`RealTextsOk`), and — hypothesis of
+`json_real_reads_back` / `json_record_reals_read_back` — that text reads back, by the RFC grammar and nearest rounding, as
+the same REAL (`RealReadsBack`) -/
 def jsonHypotheses (o : RealOracle) (results : List (ResultRow × Bool)) : Bool :=
   results.all fun r =>
     r.1.columns.all Reader.validUtf8 &&
-    r.1.rows.all fun row => row.all fun v => decide (RealTextsOk o v) && (allTexts v).all Reader.validUtf8
+    r.1.rows.all fun row => row.all fun v => decide (RealTextsOk o v) && decide (RealReadsBack o v) && (allTexts v).all Reader.validUtf8
 
 def handle (args : List Sexp) : String :=
   match args with
